@@ -464,6 +464,21 @@ func (g *Gen) varReuseProgram(mode int, tail bool) *GProgram {
 		g.rawVars["q"] = asset + " " + q.String()
 		op := g.r.Pick([]string{"-", "-", "+"})
 		diff := func() *GExpr { return &GExpr{Kind: XInfix, Op: op, A: use(), B: &GExpr{Kind: XVar, S: "q"}} }
+		if new(big.Int).Mod(q, bi(3)).Sign() == 0 {
+			// one case in three: the two variables are NUMBERS, used as the amount of monetary literals
+			// (`[USD $r - $q]`, then `[USD $r]`)
+			for _, d := range g.prog.Vars {
+				if d.Name == "r" || d.Name == "q" {
+					d.Type = "number"
+				}
+			}
+			g.rawVars["r"], g.rawVars["q"] = n.String(), q.String()
+			num := func() *GExpr { return &GExpr{Kind: XVar, S: "r"} }
+			use = func() *GExpr { return &GExpr{Kind: XMonetary, A: &GExpr{Kind: XAsset, S: asset}, B: num()} }
+			diff = func() *GExpr {
+				return &GExpr{Kind: XMonetary, A: &GExpr{Kind: XAsset, S: asset}, B: &GExpr{Kind: XInfix, Op: op, A: num(), B: &GExpr{Kind: XVar, S: "q"}}}
+			}
+		}
 		n1, n2 := bi(int64(g.r.Intn(60))), bi(int64(g.r.Intn(60)))
 		switch g.r.Intn(3) {
 		case 0:
@@ -1341,5 +1356,87 @@ func (g *Gen) keyCollisionProgram() *GProgram {
 	if g.r.Chance(1, 3) {
 		send("x:A", "B")
 	}
+	return g.prog
+}
+
+// edgeCapSum: a cap written as a sum or difference of NUMBER variables around the edge of the machine word
+// (`max [USD $na + $nb]`), in a destination (dest) or in a source: arithmetic on amounts has no word size.
+func (g *Gen) edgeCapSumProgram(dest bool) *GProgram {
+	asset := "USD"
+	g.asset = asset
+	edge := []*big.Int{new(big.Int).Sub(pow2(63), bi(1)), pow2(62), pow2(63), new(big.Int).Sub(pow2(64), bi(1)), new(big.Int).Sub(pow2(62), bi(1)),
+		new(big.Int).Add(pow2(62), bi(int64(g.r.Intn(100)))), new(big.Int).Sub(pow2(63), bi(int64(1+g.r.Intn(100)))), bi(int64(g.r.Intn(100)))}
+	a, b := edge[g.r.Intn(len(edge))], edge[g.r.Intn(len(edge))]
+	g.prog.Vars = append(g.prog.Vars, &GVarDecl{Type: "number", Name: "na"}, &GVarDecl{Type: "number", Name: "nb"})
+	g.rawVars["na"], g.rawVars["nb"] = a.String(), b.String()
+	op := "+"
+	capv := new(big.Int).Add(a, b)
+	if g.r.Chance(1, 4) {
+		op, capv = "-", new(big.Int).Sub(a, b)
+	}
+	sum := &GExpr{Kind: XInfix, Op: op, A: &GExpr{Kind: XVar, S: "na"}, B: &GExpr{Kind: XVar, S: "nb"}}
+	if g.r.Chance(1, 3) {
+		c := bi(int64(g.r.Intn(200)))
+		g.prog.Vars = append(g.prog.Vars, &GVarDecl{Type: "number", Name: "nc"})
+		g.rawVars["nc"] = c.String()
+		sum = &GExpr{Kind: XInfix, Op: "+", A: sum, B: &GExpr{Kind: XVar, S: "nc"}}
+		capv.Add(capv, c)
+	}
+	capE := &GExpr{Kind: XMonetary, A: &GExpr{Kind: XAsset, S: asset}, B: sum}
+	// the amount sent: more than the cap, exactly the cap, or less
+	n := new(big.Int).Add(new(big.Int).Abs(capv), bi(int64(g.r.Intn(1000))))
+	switch g.r.Intn(4) {
+	case 0:
+		n = new(big.Int).Abs(capv)
+	case 1:
+		n = new(big.Int).Rsh(new(big.Int).Abs(capv), 1)
+	}
+	if dest {
+		g.prog.Stmts = append(g.prog.Stmts, &GStmt{Kind: StSend, Sent: &GSent{E: lit(asset, n)}, Src: srcAcct("world"),
+			Dst: &GDest{Kind: DstInorder, Clauses: []*GClause{{Cap: capE, To: &GKod{To: dstAcct("x")}}}, Remaining: &GKod{To: dstAcct("y")}}})
+		return g.prog
+	}
+	g.bal["a"] = map[string]*big.Int{asset: new(big.Int).Add(n, bi(int64(g.r.Intn(50))))}
+	g.prog.Stmts = append(g.prog.Stmts, &GStmt{Kind: StSend, Sent: &GSent{E: lit(asset, n)},
+		Src: &GSource{Kind: SrcInorder, Subs: []*GSource{{Kind: SrcCapped, Cap: capE, From: srcAcct("a")}, srcAcct("world")}}, Dst: dstAcct("x")})
+	return g.prog
+}
+
+// saveDiff: the saved amount is written as a difference or a sum of monetary variables and literals, with a zero
+// on one side or a negative result (`save $planned - $spent from @a`): then @a is drawn.
+func (g *Gen) saveDiffProgram() *GProgram {
+	asset := "USD"
+	g.asset = asset
+	g.smallBalances([]string{"a", "b"}, asset, 40)
+	small := func() *big.Int {
+		if g.r.Chance(1, 3) {
+			return bi(0)
+		}
+		return bi(int64(g.r.Intn(30)))
+	}
+	p, q := small(), small()
+	g.prog.Vars = append(g.prog.Vars, &GVarDecl{Type: "monetary", Name: "planned"}, &GVarDecl{Type: "monetary", Name: "spent"})
+	g.rawVars["planned"], g.rawVars["spent"] = asset+" "+p.String(), asset+" "+q.String()
+	operand := func(name string, v *big.Int) *GExpr {
+		if g.r.Chance(1, 3) {
+			return lit(asset, v)
+		}
+		return &GExpr{Kind: XVar, S: name}
+	}
+	op := g.r.Pick([]string{"-", "-", "+"})
+	e := &GExpr{Kind: XInfix, Op: op, A: operand("planned", p), B: operand("spent", q)}
+	if g.r.Chance(1, 5) {
+		e = &GExpr{Kind: XInfix, Op: "-", A: e, B: operand("spent", q)}
+	}
+	g.prog.Stmts = append(g.prog.Stmts, &GStmt{Kind: StSave, Sent: &GSent{E: e}, Acct: acct("a")})
+	var src *GSource = srcAcct("a")
+	if g.r.Chance(1, 3) {
+		src = &GSource{Kind: SrcInorder, Subs: []*GSource{srcAcct("a"), srcAcct("world")}}
+	}
+	sent := &GSent{E: lit(asset, bi(int64(g.r.Intn(50))))}
+	if g.r.Chance(1, 3) {
+		sent, src = &GSent{All: true, E: &GExpr{Kind: XAsset, S: asset}}, srcAcct("a")
+	}
+	g.prog.Stmts = append(g.prog.Stmts, &GStmt{Kind: StSend, Sent: sent, Src: src, Dst: dstAcct("c")})
 	return g.prog
 }
